@@ -181,11 +181,11 @@ def moved_text(text, rot_i, trans):
     return pdbio.write(pdbio.move(pdbio.parse(text), pdbio.ROTATIONS[rot_i], trans))
 
 
-def layer1(text, rot_i, trans):
+def layer1(text, rot_i, trans, opt=()):
     entries = pdbio.parse(text)
     ttext = moved_text(text, rot_i, trans)
-    r0 = observe.run(text, [], name="a", want_atoms=True)
-    rt = observe.run(ttext, [], name="a", want_atoms=True)
+    r0 = observe.run(text, list(opt), name="a", want_atoms=True)
+    rt = observe.run(ttext, list(opt), name="a", want_atoms=True)
     if r0["error"] or rt["error"]:
         if r0["error"] and rt["error"] and r0["error"]["type"] == rt["error"]["type"]:
             return [], {"labels": ["both-error"]}, r0
@@ -241,7 +241,7 @@ def h_by_parent(conf_rec):
     return out
 
 
-def layer23(text, rot_i, trans, r0):
+def layer23(text, rot_i, trans, r0, opt=()):
     """Amino-acid-only structures.  r0: frame-0 default record with atoms."""
     v = []
     labels = []
@@ -252,14 +252,14 @@ def layer23(text, rot_i, trans, r0):
     if amb:
         return [], {"labels": ["h-ambiguous"]}
     fedt = moved_text(fed0, rot_i, trans)
-    k0 = observe.run(fed0, ["-k"], name="a")
-    kt = observe.run(fedt, ["-k"], name="a")
+    k0 = observe.run(fed0, ["-k"] + list(opt), name="a")
+    kt = observe.run(fedt, ["-k"] + list(opt), name="a")
     diffs = observe.compare_records(k0, kt, tol=1e-9)
     if diffs:
         v.append({"clause": "layer2/keep-protons-record", "detail": common.fmt_diffs(diffs),
                   "sig": f8_sig(pdbio.parse(text), [d["key"] for d in diffs])})
     # ---- layer 3: program builds the hydrogens in the moved frame ----
-    rt = observe.run(ttext, [], name="a", want_atoms=True)
+    rt = observe.run(ttext, list(opt), name="a", want_atoms=True)
     if rt["error"]:
         v.append({"clause": "layer3/no-error", "detail": repr(rt["error"])})
         return v, {"labels": labels}
@@ -296,7 +296,7 @@ def layer23(text, rot_i, trans, r0):
             back["confs"][c] = {"atoms": atoms}
         fedb, amb2, _n = c07.feed_back_hydrogens(text, back)
         if not amb2:
-            kb = observe.run(fedb, ["-k"], name="a")
+            kb = observe.run(fedb, ["-k"] + list(opt), name="a")
             km = common.xyz_keymap(fedb, text)
             diffs = observe.compare_records(rt, kb, tol=1e-9, keymap=km)
             if diffs:
@@ -316,12 +316,16 @@ def check_case(case):
     entries = pdbio.parse(text)
     if bond_ties(entries):
         return [], {"labels": ["cutoff-tie"]}
-    v, info, r0 = layer1(text, rot_i, trans)
-    labels = list(info.get("labels", []))
+    opt = []
+    if case.get("cfgspec"):
+        from vlib import cfgs
+        opt = cfgs.options(case["cfgspec"])
+    v, info, r0 = layer1(text, rot_i, trans, opt)
+    labels = list(info.get("labels", [])) + (["parameter-variant"] if opt else [])
     nontrivial = info.get("nontrivial", False) and (rot_i != 0 or any(trans))
     worst = None
     if not v and case.get("layers23") and not r0["error"] and common.is_amino_only(entries):
-        v2, info2 = layer23(text, rot_i, trans, r0)
+        v2, info2 = layer23(text, rot_i, trans, r0, opt)
         v += v2
         labels += info2.get("labels", []) + ["layers2+3"]
         nontrivial = nontrivial or (info2.get("nontrivial", False) and (rot_i != 0 or any(trans)))
@@ -344,11 +348,17 @@ def run_shard(ctx):
     def cases(draw, amino):
         s = draw(gen.structures(max_res=30 if quick else 60, allow_hetero=not amino, allow_clash=False))
         rot_i, trans, kind = draw(motion_strategy(pdbio.bbox(s.entries)))
-        return s, rot_i, trans, kind
+        spec = None
+        if draw(st.integers(0, 4)) == 0:
+            # the charge-centre / sharing switches of the parameter file (covalently coupled systems: a chain starting
+            # with ASP, CYS or HIS, ligands with several groups of one kind)
+            spec = {"changes": {"common_charge_centre": "1", "shared_determinants": draw(st.sampled_from(["0", "1"])),
+                                "remove_penalised_group": draw(st.sampled_from(["0", "1"]))}}
+        return s, rot_i, trans, kind, spec
 
     def make_body(layers23):
         def body(t):
-            s, rot_i, trans, kind = t
+            s, rot_i, trans, kind, spec = t
             rots = [rot_i] if quick else list(range(24))
             for r in rots:
                 tr = trans
@@ -357,7 +367,7 @@ def run_shard(ctx):
                     lo0 = pdbio.bbox(pdbio.move(s.entries, pdbio.ROTATIONS[rot_i], trans))[0]
                     lo1 = pdbio.bbox(pdbio.move(s.entries, pdbio.ROTATIONS[r], (0, 0, 0)))[0]
                     tr = tuple(a - b for a, b in zip(lo0, lo1))
-                case = {"pdb": s.text, "rot": r, "trans": list(tr), "layers23": layers23}
+                case = {"pdb": s.text, "rot": r, "trans": list(tr), "layers23": layers23, "cfgspec": spec}
                 v, info = check_case(case)
                 if info.get("worst_dpka"):
                     worst[0] = max(worst[0], info["worst_dpka"])
@@ -398,8 +408,12 @@ def run_shard(ctx):
     def one(t):
         name, r = t
         c = {"pdb": gen.corpus_text(name), "rot": r, "trans": list(shifts[r % 4]), "layers23": False}
+        if name in ("4DFR", "3SGB") and r % 3 == 1:
+            # the reference files with covalently coupled systems, under a common charge centre
+            c["cfgspec"] = {"changes": {"common_charge_centre": "1"}}
         v, info = check_case(c)
-        info["sample"] = {"structure": "corpus " + name, "rotation": pdbio.ROTATIONS[r], "translation_mA": c["trans"]}
+        info["sample"] = {"structure": "corpus " + name, "rotation": pdbio.ROTATIONS[r], "translation_mA": c["trans"],
+                          "cfgspec": c.get("cfgspec")}
         ctx.account(c, v, info)
     ctx.loop_stage("corpus-files-24-orientations", mine, one, exhaustive=False)
     ctx.notes["max_raw_dpka_between_frames_when_program_builds_hydrogens"] = worst[0]
